@@ -124,6 +124,13 @@ class HX:
             return SBytes(octs) if n else b""
         return bytes(octs)
 
+    def dyadic(self, n, e):
+        """float with the exact value n / 2**e (n may be symbolic); the harness must keep n within 53 significant bits"""
+        if self.mode == "sym":
+            from sxl.sfloat import SDyad
+            return SDyad(n, e)
+        return n / float(1 << e)
+
     def flag(self, name):
         """declared two-way case split (forks)"""
         b = self._v(name)
